@@ -8,11 +8,13 @@ CONSTANTS
   SharedEqualRecords = FALSE
   ClassLevelOption = FALSE
   StoreBeforeValidate = FALSE
+  ReorderStoresPlainKeys = FALSE
   Emit = TRUE
   EmitOff = 0
 SPECIFICATION Spec
 INVARIANT TypeOK
 INVARIANT DumpTotal
+INVARIANT KeysFold
 INVARIANT WidthTable
 INVARIANT DumpExplains
 INVARIANT RecordsRoundTrip
